@@ -34,7 +34,12 @@ def cases(rng, tier):
         else:
             y = rng.values(n)
         s = rng.choice([None, 0.0, 1e-4, 1e-2, 0.5, 1.0, 10.0, 100.0])
-        yield {"x": [str(v) for v in x], "y": [str(v) for v in y], "s": s, "shape": shape}
+        int_y = rng.random() < 0.2
+        if int_y:
+            y = [Fraction(int(v * 4)) for v in y]          # counts: held with an integer dtype
+            if shape == "affine":
+                shape = "noisy"                             # truncation to integers destroys exact affinity
+        yield {"x": [str(v) for v in x], "y": [str(v) for v in y], "s": s, "shape": shape, "int_y": int_y}
 
 
 def request(c):
@@ -46,6 +51,8 @@ def run_impl(c):
     from traffic_weaver.process import spline_smooth
     x = np.array(floats([Fraction(v) for v in c["x"]]))
     y = np.array(floats([Fraction(v) for v in c["y"]]))
+    if c.get("int_y"):
+        y = np.array([int(Fraction(v)) for v in c["y"]])
     out = {}
     with warnings.catch_warnings(record=True) as wl:
         warnings.simplefilter("always")
@@ -58,6 +65,13 @@ def run_impl(c):
                 out["smooth_x"] = [float(v) for v in w.get()[0]]
                 out["fun"] = [float(v) for v in Weaver(x, y).to_function(c["s"])(x)]
             out["fun0"] = [float(v) for v in Weaver(x, y).to_function()(x)]
+            # sampled again after the samples were edited through the arrays get() returns
+            w2 = Weaver(x.copy(), y.copy())
+            w2.to_function()
+            gy = w2.get()[1]
+            gy[len(gy) // 2] += 3.0
+            out["fun0_after_edit"] = [float(v) for v in w2.to_function()(w2.get()[0])]
+            out["y_after_edit"] = [float(v) for v in w2.get()[1]]
             mid = (x[:-1] + x[1:]) / 2
             out["fun0_mid"] = [float(v) for v in Weaver(x, y).to_function()(mid)]
         except Exception as e:  # noqa
@@ -103,6 +117,8 @@ def oracle(c, io):
     scale = max(1.0, max(abs(v) for v in y))
     if any(abs(a - b) > 1e-7 * scale for a, b in zip(io["fun0"], y)):
         return "to_function() with its default zero smoothing does not pass through every sample"
+    if "fun0_after_edit" in io and any(abs(a - b) > 1e-7 * scale for a, b in zip(io["fun0_after_edit"], io["y_after_edit"])):
+        return "to_function() is not consistent with get(): after the samples changed it still returns the old fit"
     s = c["s"]
     if s is None:
         mean = sum(y) / n
